@@ -136,7 +136,9 @@ CHECKS = {
              'an accepted formula covers the whole token list and every other outcome is the parser exception (whole_or_rejected, no_silent_truncation); every node of a '
              'returned tree instantiates, in order, one of the token sets of its class (derivation_sound: a supported function is never accepted with an argument list the '
              'grammar does not define); the parser looks at token CLASSES only - relabelling the texts of the tokens relabels the tree and changes neither acceptance nor shape '
-             '(kinds_only), so ";" and "," are interchangeable as separators for every formula and grammar (separator_blind). On the table regenerated from the source (Tie A): keywords_longest_first, generated_symbols_defined (decide). '
+             '(kinds_only), so ";" and "," are interchangeable as separators for every formula and grammar (separator_blind); the lexer model drops nothing but whitespace: the token texts in '
+             'order, with whitespace only around them, are the whole text (lexer_drops_nothing, for any lexer table), and its regex sources are the ones of this run (pinned_sources, '
+             'lexer_table_modelled, separators_one_class). On the table regenerated from the source (Tie A): keywords_longest_first, generated_symbols_defined (decide). '
              'Tie B: random derivations of the repository\'s own grammar (all functions, all argument shapes) and mutants, real Lexer + AstBuilder vs the Lean interpreter on the '
              'regenerated table (tree shape / reject), leaves-vs-tokens on the real tree, whitespace and ,/; laws through evaluation.',
         note='Trusted: Lean kernel; standard axioms; extraction of the grammar from the imported classes; the regex lexer itself is not modelled in Lean - that both separators lex to SeparatorToken and that whitespace '
@@ -191,7 +193,7 @@ CHECKS = {
              '(no_paren_never_listed), cells whose call syntax is only upper-case identifiers are never listed (only_excel_calls_never_listed), every listed fragment has an '
              'identifier that is not upper-case throughout (listed_is_python_like), with the check disabled the exception is never raised and enabled exactly when a cell is '
              'listed (disabled_never_raises, enabled_raises_iff), the key is \'title\' + column letters + row (reportKey_shape); completeness: a text containing an identifier run immediately followed by "(" with a ")" '
-             'later makes the scan non-empty (scan_complete), and when the text has no upper-case letter at all the cell is listed (flags_python_like). Tie B: per cell text the real scanner vs the Lean scanner and vs an independent hand scanner; '
+             'later makes the scan non-empty (scan_complete), and the cell is listed when no found call fragment is an upper-case function call (flags_when_no_excel_call), in particular when the text has no upper-case letter at all (flags_python_like). Tie B: per cell text the real scanner vs the Lean scanner and vs an independent hand scanner; '
              'workbooks with fragments planted off the diagonal on several sheets, through openpyxl and the facade, check on/off: exception type, exact key set, fragments.',
         note='Completeness for texts mixing upper-case calls and Python-like calls (the scan resumes after the first ")" of a match, so a Python-like call nested inside an '
              'upper-case call\'s arguments is only seen when the argument regex lets it) is established by the differential sweep, not by a theorem. Trusted: Lean kernel; standard axioms; '
